@@ -61,6 +61,12 @@ type sentEpisode struct {
 	repR     map[string]bool // offered as eligible replica
 	lastRole map[string]byte
 	baseline int
+	// ground truth per evaluation (reset at the start of every refresh / event / construction)
+	seq       int            // counts ROLE commands
+	evalStart int            // seq when the current evaluation started
+	connRole  map[int][2]int // connection id -> (seq of its last ROLE, reply letter)
+	namedM    map[string]bool
+	namedR    map[string]bool
 }
 
 func sentName(i int) string { return "s" + strconv.Itoa(i) + ":26379" }
@@ -149,6 +155,7 @@ func (ep *sentEpisode) respond(addr string, e *entry, i int, _ context.Context) 
 			case strings.HasPrefix(sp.master, "n"):
 				ep.mu.Lock()
 				ep.reported[sp.master+":6379"] = true
+				ep.namedM[sp.master+":6379"] = true
 				ep.mu.Unlock()
 				return res(strs(sp.master, "6379"))
 			case sp.master == "Z":
@@ -174,6 +181,7 @@ func (ep *sentEpisode) respond(addr string, e *entry, i int, _ context.Context) 
 						ms = append(ms, strs("name", "x", "ip", "n"+r, "port", "6379"))
 						ep.mu.Lock()
 						ep.repR["n"+r+":6379"] = true
+						ep.namedR["n"+r+":6379"] = true
 						ep.mu.Unlock()
 					}
 				}
@@ -194,6 +202,8 @@ func (ep *sentEpisode) respond(addr string, e *entry, i int, _ context.Context) 
 			}
 		}
 		ep.lastRole[addr] = c
+		ep.seq++
+		ep.connRole[e.conn] = [2]int{ep.seq, int(c)}
 		ep.mu.Unlock()
 		return roleReply(c)
 	}
@@ -275,6 +285,8 @@ func (ep *sentEpisode) start(mode string, inits []int) string {
 	ep.reported = map[string]bool{}
 	ep.repR = map[string]bool{}
 	ep.lastRole = map[string]byte{}
+	ep.connRole = map[int][2]int{}
+	ep.beginEval()
 	ep.mode = mode
 	ep.w.quiet = func(a []string) bool { return topoQuiet(a) }
 	ep.w.respond = ep.respond
@@ -331,6 +343,70 @@ func (ep *sentEpisode) start(mode string, inits []int) string {
 	return ep.snapshot(result)
 }
 
+// beginEval marks the start of a switch evaluation (construction, refresh, event)
+func (ep *sentEpisode) beginEval() {
+	ep.mu.Lock()
+	ep.evalStart = ep.seq
+	ep.namedM = map[string]bool{}
+	ep.namedR = map[string]bool{}
+	ep.mu.Unlock()
+}
+
+// evalOracle states the property from the fakes' ground truth after a COMPLETED evaluation: a probe
+// command shows which connection now carries the traffic; that connection must belong to an address
+// named in that role during THIS evaluation and must have answered ROLE with that role during THIS
+// evaluation (on this very connection). kinds: "P" primary, "R" replica.
+func (ep *sentEpisode) evalOracle(c *Ctx, line string, kinds string) {
+	if ep.client == nil {
+		return
+	}
+	for _, kind := range kinds {
+		if (kind == 'P' && ep.mode == "r") || (kind == 'R' && ep.mode == "m") {
+			continue
+		}
+		ep.w.take()
+		var cmd rueidis.Completed
+		if kind == 'R' {
+			cmd = ep.client.B().Get().Key("probe").Build()
+		} else {
+			cmd = ep.client.B().Set().Key("probe").Value("v").Build()
+		}
+		ok := true
+		func() {
+			defer func() {
+				if r := recover(); r != nil {
+					ok = false
+				}
+			}()
+			ep.client.Do(context.Background(), cmd)
+		}()
+		log := ep.w.take()
+		if !ok || len(log) != 1 {
+			continue
+		}
+		e := log[0]
+		ep.mu.Lock()
+		named := ep.namedM[e.addr]
+		if kind == 'R' {
+			named = ep.namedR[e.addr]
+		}
+		role := byte('-')
+		if cr, seen := ep.connRole[e.conn]; seen && cr[0] > ep.evalStart {
+			role = byte(cr[1])
+		}
+		ep.mu.Unlock()
+		c.Emit(fmt.Sprintf("!eval kind=%c closed=%s named=%s role=%c", kind, b01(e.dead), b01(named), role), "ok", false)
+		want := byte('M')
+		if kind == 'R' {
+			want = 'S'
+		}
+		if !e.dead && !(named && role == want) {
+			c.Fail(map[rune]string{'P': "sentinel:primary-traffic-to-non-master:role-not-verified", 'R': "sentinel:replica-traffic-to-non-slave:role-not-verified"}[kind], line,
+				fmt.Sprintf("after a completed switch evaluation the %c traffic goes over a live connection to %s which was named in this evaluation=%v and answered ROLE on this connection in this evaluation with %q (need %q)", kind, short(e.addr), named, string(role), string(want)))
+		}
+	}
+}
+
 func (ep *sentEpisode) stop() {
 	if ep.client != nil {
 		ep.client.Close()
@@ -342,6 +418,7 @@ func (ep *sentEpisode) refresh() string {
 	if ep.client == nil {
 		return "no-client"
 	}
+	ep.beginEval()
 	result := "ok"
 	func() {
 		defer func() {
@@ -374,6 +451,29 @@ func (ep *sentEpisode) event(kind string, named bool, addr, variant int) string 
 	if cb == nil {
 		return "no-callback"
 	}
+	ep.beginEval()
+	if kind == "brk" {
+		// the subscription to the current sentinel broke: the Receive goroutine runs refreshRetry(),
+		// i.e. refresh() until it succeeds (the fake's Receive has returned long ago, so we run that loop here)
+		result := "ok"
+		func() {
+			defer func() {
+				if r := recover(); r != nil {
+					result = "panic"
+				}
+			}()
+			for i := 0; i < 12; i++ {
+				if err := rueidis.VerifRoutingSentinelRefresh(ep.client); err == nil {
+					return
+				}
+			}
+			result = "gave-up"
+		}()
+		if result == "panic" {
+			ep.client = nil
+		}
+		return ep.snapshot(result)
+	}
 	name := "mymaster"
 	if !named {
 		name = "othermaster"
@@ -393,6 +493,7 @@ func (ep *sentEpisode) event(kind string, named bool, addr, variant int) string 
 	if named && (kind == "sm" || kind == "rbm") {
 		ep.mu.Lock()
 		ep.reported[nodeName(addr)] = true
+		ep.namedM[nodeName(addr)] = true
 		ep.mu.Unlock()
 	}
 	result := "ok"
@@ -488,6 +589,9 @@ func (r *sentRunner) exec(c *Ctx, line string) {
 		ans := r.ep.start(kv["mode"], inits)
 		c.Emit(line, ans, true)
 		c.Hit("reset:" + strings.Fields(ans)[0])
+		if strings.HasPrefix(ans, "ok ") {
+			r.ep.evalOracle(c, line, "PR")
+		}
 	case "world":
 		if r.ep == nil {
 			return
@@ -503,15 +607,29 @@ func (r *sentRunner) exec(c *Ctx, line string) {
 		ans := r.ep.refresh()
 		c.Emit(line, ans, true)
 		c.Hit("refresh:" + strings.Fields(ans)[0])
+		if strings.HasPrefix(ans, "ok ") {
+			r.ep.evalOracle(c, line, "PR")
+		}
 	case "ev":
 		if r.ep == nil {
 			return
 		}
 		addr, _ := strconv.Atoi(kv["addr"])
 		variant, _ := strconv.Atoi(kv["var"])
-		ans := r.ep.event(ws[1], kv["named"] == "1", addr, variant)
+		named := kv["named"] == "1"
+		ans := r.ep.event(ws[1], named, addr, variant)
 		c.Emit(line, ans, true)
 		c.Hit("ev:" + ws[1])
+		if strings.HasPrefix(ans, "ok ") {
+			switch {
+			case ws[1] == "brk":
+				r.ep.evalOracle(c, line, "PR")
+			case named && (ws[1] == "sm" || ws[1] == "rbm"):
+				r.ep.evalOracle(c, line, "P")
+			case named && ws[1] == "slv" && r.ep.mode != "m":
+				r.ep.evalOracle(c, line, "PR")
+			}
+		}
 	case "do":
 		if r.ep == nil {
 			return
@@ -609,6 +727,28 @@ func runSentinel(c *Ctx) {
 			}
 		}
 	}
+	// ---- demoted-but-reachable target + stale sentinel + re-evaluation trigger (and the same address
+	//      becoming master again later): the role must be re-verified on the reused connection
+	triggers := []string{"refresh", "ev brk named=1 addr=0 var=0", "ev sm named=1 addr=0 var=0", "ev rbm named=1 addr=0 var=0"}
+	for _, t1 := range triggers {
+		for _, t2 := range triggers {
+			for _, stale := range []string{"s0=D:-:n0:- s1=D:-:n1:-", "s0=D:1:n0:- s1=D:-:n1:-", "s0=D:-:n0:- s1=D:0:n1:-"} {
+				run("reset mode=m init=0,1 "+stale+" n0=D:M n1=D:S", "do repl=0",
+					"world n0=D:S n1=D:M", t1, "do repl=0",
+					"world n0=D:M n1=D:S s0=D:-:n0:- s1=D:-:n0:-", t2, "do repl=0",
+					"world n0=D:S n1=D:M s0=D:-:n0:- s1=D:-:n1:-", t1, "do repl=0")
+			}
+		}
+	}
+	rtriggers := []string{"refresh", "ev brk named=1 addr=0 var=0", "ev slv named=1 addr=2 var=0", "ev slv named=1 addr=2 var=3"}
+	for _, t1 := range rtriggers {
+		for _, t2 := range rtriggers {
+			run("reset mode=r init=0,1 s0=D:-:n0:2 s1=D:-:n0:3 n0=D:M n2=D:S n3=D:S", "do repl=1",
+				"world n2=D:M", t1, "do repl=1",
+				"world n2=D:S n3=D:M s0=D:-:n0:2 s1=D:-:n0:2", t2, "do repl=1",
+				"world n2=D:M n3=D:S s0=D:-:n0:2 s1=D:-:n0:3", t1, "do repl=1")
+		}
+	}
 	// ---- SendToReplicas mode, success paths
 	for _, reps := range []string{"2", "1!,2", "2,1!"} {
 		run(fmt.Sprintf("reset mode=b init=0 s0=D:1:n0:%s s1=D:-:n0:2 n0=D:M n1=D:S n2=D:S", reps), "do repl=0", "do repl=1", "refresh", "do repl=1",
@@ -669,7 +809,7 @@ func runSentinel(c *Ctx) {
 					evRoles = evRoles[:4]
 				}
 				run(fmt.Sprintf("world s0=D:-:n%d:2 s1=D:-:n%d:2 s2=D:-:n%d:2 n%d=D:%s n%d=D:S n2=D:S", tj, tj, tj, tj, pickS(evRoles...), 1-tj),
-					fmt.Sprintf("ev %s named=%s addr=%d var=%d", pickS("sm", "sm", "rbm", "slv", "oth"), pickS("1", "1", "0"), pickS2(c, tj), c.Rng.IntN(4)))
+					fmt.Sprintf("ev %s named=%s addr=%d var=%d", pickS("sm", "sm", "rbm", "slv", "oth", "brk"), pickS("1", "1", "0"), pickS2(c, tj), c.Rng.IntN(4)))
 				run("do repl=0")
 			}
 		}
